@@ -75,6 +75,10 @@ fn serve_slot(engine: String, tier: Tier, seed: u64, first: u64, stride: u64, li
                 return Err(format!("a worker died ({status}) before its first run"));
             };
             slot.died.push((index, format!("{status}")));
+            // three deaths in one slot are enough evidence (each hang costs a minute)
+            if slot.died.len() >= 3 {
+                return Ok(slot);
+            }
             // what the dead process had done is lost with it; carry on after the fatal run
             first = index + stride;
         }
